@@ -19,7 +19,7 @@ import re
 
 import hirq
 
-K_REC = 2        # a function may be re-entered this many times on one path (nesting depth K_REC+1)
+K_REC = 1        # a function may be re-entered this many times on one path (nesting depth K_REC+1)
 K_LOOP = 3       # iterations of a pointer-chasing loop
 
 UNK = ("unk",)
